@@ -34,4 +34,12 @@ def entryVerdict (k : Kind) (outcome : Nat) (decoderInContract : Bool) : Verdict
     if !decoderInContract then .unjudged
     else if outcome = 3 then .violated else .ok
 
+/-! Outside the property (documentation, not an oracle): what `get_template` does when the file system itself answers a
+    cache operation with an `OSError` (open / read / creating, writing, closing the temporary / the rename).  The property
+    speaks of entries found on disk by a LATER load (truncated, foreign, stale, left by a writer that died) and of histories
+    of loads, modifications and clears; `BytecodeCache.dump_bytecode` is documented to raise when it cannot store.  The
+    behaviour at those sites is therefore only TRANSCRIBED (Model `fsOpenFails`, `dumpRun` over the handlers read from the
+    source) and pinned as facts about the current code in Props/C27; what IS the property there: after any such fault the
+    next fault-free load renders the current source. -/
+
 end JinjaV.SpecBcCache
